@@ -774,9 +774,13 @@ func checkEffects(journal []JEntry, rb string) string {
 		Arr []string                   `json:"arr"`
 		Log string                     `json:"log"`
 		Gk  string                     `json:"gk"`
+		Srt string                     `json:"srt"`
 	}
 	if err := json.Unmarshal([]byte(rb), &d); err != nil {
 		return "readback not parseable: " + err.Error() + ": " + rb
+	}
+	if d.Srt != "" && d.Srt != "1,2,3,4,5,6,7|1,2,3,4,5,6,7,8,9,10,11,12|7|12" {
+		return "an array that is only ever sorted in place no longer holds exactly its elements: " + d.Srt
 	}
 	begun := map[[2]int]bool{}
 	committed := map[[2]int]bool{}
@@ -861,7 +865,7 @@ func checkEffects(journal []JEntry, rb string) string {
 			return fmt.Sprintf("committed tx %d (kind %d) is missing from its store", kt[1], kt[0])
 		}
 	}
-	if d.Gk != "v,d,P,a,w,arr,n" {
+	if d.Gk != "v,d,P,a,w,arr,n,srt,srt2" {
 		return "store object S has keys " + d.Gk
 	}
 	return ""
